@@ -170,6 +170,8 @@ def install(ex):
         a = args[0]
         if isinstance(a, (IterV, DrainV)):
             return a
+        if isinstance(a, Agg) and a.ty in ("Range", "RangeInclusive"):
+            return a
         if isinstance(a, VecV):
             return DrainV(a.items)
         if isinstance(a, Ref):
@@ -261,7 +263,82 @@ def install(ex):
         ex_.set_at(st, root, path, VecV(v.items[:k]))
         return Unit()
 
+    def m_clear(ex_, st, cname, args, dest_ty, fn):
+        root, path, v = vec_at(st, args[0])
+        ex_.set_at(st, root, path, VecV([]))
+        return Unit()
+
+    def range_items(r, inclusive):
+        a, b = conc(r.fields[0]), conc(r.fields[1])
+        if a is None or b is None:
+            raise Unsupported("symbolic range bounds")
+        return [usize(i) for i in range(a, b + 1 if inclusive else b)]
+
+    def m_range_next(ex_, st, cname, args, dest_ty, fn):
+        r = args[0]
+        it = ex_.deref(st, r)
+        if isinstance(it, Agg) and it.ty in ("Range", "RangeInclusive"):
+            it = DrainV(range_items(it, it.ty == "RangeInclusive"))
+        if isinstance(it, DrainV):
+            if not it.items:
+                ex_.set_at(st, r.root, list(r.path), it)
+                return Agg("Option", "None", [])
+            ex_.set_at(st, r.root, list(r.path), DrainV(it.items[1:]))
+            return Agg("Option", "Some", [it.items[0]])
+        return NotImplemented
+
+    def m_range_rev(ex_, st, cname, args, dest_ty, fn):
+        it = args[0]
+        if isinstance(it, Agg) and it.ty in ("Range", "RangeInclusive"):
+            return DrainV(list(reversed(range_items(it, it.ty == "RangeInclusive"))))
+        if isinstance(it, DrainV):
+            return DrainV(list(reversed(it.items)))
+        return NotImplemented
+
+    def m_skip(ex_, st, cname, args, dest_ty, fn):
+        it, k = args[0], conc(args[1])
+        if k is None:
+            raise Unsupported("symbolic skip count")
+        if isinstance(it, IterV):
+            return IterV(it.ref, it.order[k:])
+        if isinstance(it, DrainV):
+            return DrainV(it.items[k:])
+        return NotImplemented
+
+    def m_slice_to(ex_, st, cname, args, dest_ty, fn):
+        root, path, v = vec_at(st, args[0])
+        rng = args[1]
+        n = len(v.items)
+        if "RangeTo<" in cname:
+            a, b = 0, conc(rng.fields[0])
+        elif "RangeFrom<" in cname:
+            a, b = conc(rng.fields[0]), n
+        else:
+            a, b = conc(rng.fields[0]), conc(rng.fields[1])
+        if a is None or b is None:
+            raise Unsupported("symbolic slice range")
+        ob(st, "slice [%d..%d] within len %d" % (a, b, n), a <= b <= n, fn)
+        if not (a <= b <= n):
+            return PANIC
+        cid = st.new_cell(VecV(v.items[a:b]))
+        return Ref(("heap", cid), (), False)
+
+    def m_cmp_refs(ex_, st, cname, args, dest_ty, fn):
+        a, b = args[0], args[1]
+        for _ in range(3):
+            a, b = ex_.deref(st, a), ex_.deref(st, b)
+        if isinstance(a, BV) and isinstance(b, BV):
+            op = {"lt": "Lt", "le": "Le", "gt": "Gt", "ge": "Ge", "eq": "Eq", "ne": "Ne"}[cname.rsplit("::", 1)[1]]
+            return ex_.binop(op, a, b)
+        return NotImplemented
+
     ex.models += [
+        (r"^Vec::<.*>::clear$", m_clear),
+        (r"^<(Rev<)?std::ops::Range(Inclusive)?<usize>>? as Iterator>::next$", m_range_next),
+        (r"^<std::ops::Range(Inclusive)?<usize> as Iterator>::rev$", m_range_rev),
+        (r"as Iterator>::skip$", m_skip),
+        (r"^<\[.*\] as Index<Range(To|From)?<usize>>>::index$|^<Vec<.*> as Index<Range(To|From)?<usize>>>::index$", m_slice_to),
+        (r"^<&(mut )?(usize|u32|isize|i32) as Partial(Ord|Eq)>::(lt|le|gt|ge|eq|ne)$", m_cmp_refs),
         (r"^Vec::<.*>::new$|^<Vec<.*> as Default>::default$|^Vec::<.*>::with_capacity$", m_new),
         (r"^Vec::<.*>::push$", m_push),
         (r"^Vec::<.*>::pop$", m_pop),
